@@ -28,6 +28,8 @@ def run(ctx, chk):
     chk.rule('C09.3', 'D', 'interrupt dispatch accounting: every path of handle_interrupt that pushes PC or redirects it '
              'adds exactly 5 machine cycles to Registers.cycles (delivered with the next step); every other path adds none',
              floor=8)
+    chk.rule('C09.8', 'D', 'a step spent halted or stopped delivers exactly one machine cycle (4 clocks) to the devices before '
+             'interrupts are sampled, on every non-running path of Core::update; every step delivers time', floor=2)
     chk.rule('C09.4', 'D', 'fan-out: MemoryAreas::run_clock_cycles hands the same clock count to IO::run_clock_cycles, '
              'which hands it to the timer and the LCD controller, each exactly once on every path', floor=2)
     chk.rule('C09.5', 'D', 'device tick functions are called only through that chain', floor=4)
@@ -42,6 +44,7 @@ def run(ctx, chk):
             continue
         file = 'src/emulator.rs'
         dispatch_accounting(chk, cfg, facts, file)
+        suspended_steps(chk, cfg, facts, file)
         if cfg == 'default':
             ip = absint.Interp(facts, trust_asserts=('overflow',))
             st = ip.new_state()
@@ -289,3 +292,42 @@ def _syms(t, out=None):
             if isinstance(a, tuple):
                 _syms(a, out)
     return out
+
+
+def suspended_steps(chk, cfg, facts, file):
+    steps = [CORE + 'run_interp', CORE + 'run_code_block']
+    ipu = absint.Interp(facts, opaque=steps + [HI, MRC])
+    st = ipu.new_state()
+    core = ipu.arg_object(st, 'core')
+    rs = ipu.run(CORE + 'update', [core], st)
+    bad = None
+    nsusp = nrun = 0
+    for r in rs:
+        if r.status != 'ok':
+            bad = bad or 'Core::update can diverge (%s)' % (r.detail,)
+            continue
+        calls = [e for e in r.state.events if e[0] == 'call']
+        cn = [c[1] for c in calls]
+        if any(c in steps for c in cn):
+            nrun += 1            # the step function delivers its own time (rule 2)
+            continue
+        nsusp += 1
+        if MRC not in cn:
+            bad = bad or 'a path of Core::update on which no instruction runs delivers no clocks to the devices (time stands ' \
+                         'still while the CPU is suspended; run_frame cannot terminate)'
+            continue
+        if HI in cn and cn.index(MRC) > cn.index(HI):
+            bad = bad or 'the suspended step samples interrupts before delivering its clocks'
+        a = calls[cn.index(MRC)][2][1]
+        v = unwrap(a)
+        if not (v is not None and T.is_int(v) and r.state.env.const_of(v) == 4):
+            bad = bad or 'the suspended step delivers %s clocks, expected 4 (one machine cycle)' % fmt(a)
+        if cn.count(MRC) != 1:
+            bad = bad or 'the suspended step delivers clocks %d times' % cn.count(MRC)
+    key = cfg + ':suspended'
+    if bad:
+        chk.fail('C09.8', key, bad, file, None)
+    elif not nsusp or not nrun:
+        chk.error('C09.8: Core::update has no %s path' % ('suspended' if not nsusp else 'running'))
+    else:
+        chk.ok('C09.8', key, sample={'suspended paths': nsusp, 'running paths': nrun, 'clocks per suspended step': 4})
